@@ -258,8 +258,20 @@ func (g *gen) conns4(origin string) map[string]float64 {
 			continue
 		}
 		m[p] = float64(1 + g.r.Intn(3))
+		if g.r.Chance(3) {
+			m[p] = 0 // a cost that is not positive: the whole update must be ignored
+		}
 	}
 	return m
+}
+
+func nonPositive(u netceptor.VerifRoutingUpdate) bool {
+	for _, c := range u.Connections {
+		if !(c > 0) {
+			return true
+		}
+	}
+	return false
 }
 
 func (g *gen) update() (netceptor.VerifRoutingUpdate, string, string) {
@@ -422,6 +434,13 @@ func runHistory(c *Ctx, im *Impl, r *Rng, hlen int) (conns []string, steps []ste
 			}
 		}
 		// (O2) older / equal / replayed / self / empty: picture unchanged, nothing relayed
+		bad := nonPositive(u)
+		if bad {
+			im.Hist("update:lists-non-positive-cost")
+			if !sameKnown(prev.Known, o.Known) || !sameInfo(prev.Info, o.Info) || len(o.Relays) > 0 {
+				im.Violate("an update listing a non-positive connection cost was applied or relayed", "nonpositive-cost-applied", rec)
+			}
+		}
 		if ordinary && (seenBefore || !notOlder || u.NodeID == "self" || u.NodeID == "") {
 			if !sameKnown(prev.Known, o.Known) || !sameInfo(prev.Info, o.Info) {
 				im.Violate("an update that is older than, equal to, or a replay of an accepted one (or names the node itself) changed the picture", "stale-changed-picture", rec)
@@ -454,7 +473,7 @@ func runHistory(c *Ctx, im *Impl, r *Rng, hlen int) (conns []string, steps []ste
 					im.Violate(fmt.Sprintf("genuine update relayed %d times to %s", got[cn], cn), "relay-count", rec)
 				}
 			}
-		} else if ordinary && !seenBefore && notOlder && u.NodeID != "self" && u.NodeID != "" && !o.Down {
+		} else if ordinary && !bad && !seenBefore && notOlder && u.NodeID != "self" && u.NodeID != "" && !o.Down {
 			for _, cn := range conns {
 				if cn != recv {
 					im.Violate("a genuine new update was not relayed", "fresh-not-relayed", rec)
@@ -463,7 +482,7 @@ func runHistory(c *Ctx, im *Impl, r *Rng, hlen int) (conns []string, steps []ste
 			}
 		}
 		// (O4) accepted: picture of the origin is what the update says
-		if ordinary && !seenBefore && notOlder && u.NodeID != "self" && u.NodeID != "" {
+		if ordinary && !bad && !seenBefore && notOlder && u.NodeID != "self" && u.NodeID != "" {
 			if nv := o.Info[u.NodeID]; nv != [2]uint64{u.UpdateEpoch, u.UpdateSequence} {
 				im.Violate("a genuine newer update was not recorded", "fresh-not-recorded", rec)
 			}
